@@ -43,7 +43,8 @@ ASSUMPTIONS = ["solutions are judged for scales >= 1e-7 (matrix scales 1e-6..1e1
 QUICK_JOBS = 16
 MIN_MONITORS = {"*": {"kkt.solver": 100, "kkt.solver.warm": 50, "backward.unconstrained": 10, "nnls.crosscheck": 20,
                       "kkt.inversion": 20, "kkt.inversion.prod_defaults": 4, "forced_zero.exact": 4, "forced_zero.via_image_pixels": 4, "model_data.per_object": 10,
-                      "model_data.sum": 10, "path:warm_start_taken": 10, "path:fix_constraint_called": 1, "kkt.solver.tiny_solution": 4}}
+                      "model_data.sum": 10, "path:warm_start_taken": 10, "path:fix_constraint_called": 1, "kkt.solver.tiny_solution": 4,
+                      "path:several_parameters_reach_the_bound_in_one_step": 10, "settings.explicit_value_wins_over_config": 20}}
 
 
 def plan(tier, seed):
@@ -81,6 +82,15 @@ def setup(ctx):
     from autoarray.util import cholesky_funcs
     frames.count_calls(cholesky_funcs.cholinsertlast, ctx.reach, "cholesky_funcs.cholinsertlast")
     frames.count_calls(cholesky_funcs.choldeleteindexes, ctx.reach, "cholesky_funcs.choldeleteindexes")
+
+    def on_delete(loc, ret):
+        try:
+            if len(loc.get("indexes")) >= 2:
+                ctx.monitors["path:several_parameters_reach_the_bound_in_one_step"] += 1
+        except Exception:
+            pass
+
+    frames.capture_return(cholesky_funcs.choldeleteindexes, on_delete)
 
 
 def teardown(ctx):
@@ -125,7 +135,48 @@ def nnls_reference(A, D):
     return s * (d / a)
 
 
+def twin_system(rng):
+    """Exactly symmetric systems (dyadic entries): g mutually orthogonal "twin" parameters with identical diagonal, identical
+    coupling to the others and identical data-vector entries enter the passive set one after the other and are then driven
+    negative together by a strongly coupled parameter - several passive parameters reach the bound in the same step (the solver
+    removes several rows/columns from its Cholesky factor at once). Generic random systems never produce such ties."""
+    for _ in range(40):
+        g = int(rng.integers(2, 5))
+        k = int(rng.integers(0, 4))
+        n = g + 1 + k
+        a = float(rng.choice([1.0, 2.0, 4.0]))
+        c = float(rng.choice([0.25, 0.5, 1.0]))
+        dl = float(rng.choice([0.125, 0.25, 0.5]))
+        t = float(rng.choice([0.5, 1.0, 2.0]))
+        e = g * c * t / a + dl * (t / c) * float(rng.choice([1.5, 2.0, 4.0]))
+        A = np.zeros((n, n))
+        A[:g, :g] = a * np.eye(g)
+        A[:g, g] = A[g, :g] = c
+        A[g, g] = g * c * c / a + dl
+        D = np.concatenate([np.full(g, t), [e]])
+        if k:
+            x = rng.integers(-2, 3, size=k) / 8.0
+            A[:g, g + 1:] = x[None, :]
+            A[g + 1:, :g] = x[:, None]
+            A[g + 1:, g + 1:] = np.eye(k) * float(rng.choice([2.0, 4.0, 8.0]))
+            D = np.concatenate([D, rng.integers(-4, 5, size=k) / 4.0])
+        if e >= t:
+            continue                    # the twins must enter the passive set before the parameter that expels them
+        try:
+            np.linalg.cholesky(A)
+        except np.linalg.LinAlgError:
+            continue
+        perm = rng.permutation(n)
+        sc = float(2.0 ** int(rng.integers(-20, 40))) if rng.random() < 0.4 else 1.0      # power-of-two units keep the ties exact
+        return A[np.ix_(perm, perm)] * sc, D[perm] * sc, "twins_exact_ties" + ("*scaled" if sc != 1.0 else ""), "positive"
+    return None
+
+
 def spd_system(rng):
+    if rng.random() < 0.08:
+        tw = twin_system(rng)
+        if tw is not None:
+            return tw
     n = int(rng.integers(1, 31))
     fam = str(rng.choice(["gram", "gram_illcond", "banded", "banded_gram", "neg_offdiag"]))
     if fam in ("gram", "gram_illcond"):
@@ -290,6 +341,21 @@ def run_inversion(ctx, i):
                       got=(st.use_positive_only_solver, st.positive_only_uses_p_initial))
             any_active |= check_inversion(ctx, case, objs, desc, st, B, offs, Wc, dict(w_tilde=use_w, config="prod", positive=True, warm=True, force=True),
                                           monitor="kkt.inversion.prod_defaults")
+            # under the same configuration an explicit setting wins over the configured default - in particular an explicit False
+            st_u = aa.SettingsInversion(use_w_tilde=use_w, use_positive_only_solver=False, positive_only_uses_p_initial=False,
+                                        force_edge_pixels_to_zeros=False)
+            ctx.check(st_u.use_positive_only_solver is False and st_u.positive_only_uses_p_initial is False and st_u.force_edge_pixels_to_zeros is False,
+                      "settings.explicit_value_wins_over_config", config="prod", requested=(False, False, False),
+                      got=(st_u.use_positive_only_solver, st_u.positive_only_uses_p_initial, st_u.force_edge_pixels_to_zeros))
+            check_inversion(ctx, case, objs, desc, st_u, B, offs, Wc, dict(w_tilde=use_w, config="prod", positive=False, warm=False, force=False))
+            st_c = aa.SettingsInversion(use_w_tilde=use_w, use_positive_only_solver=True, positive_only_uses_p_initial=False,
+                                        force_edge_pixels_to_zeros=False)
+            warm_before = ctx.monitors["path:warm_start_taken"]
+            check_inversion(ctx, case, objs, desc, st_c, B, offs, Wc, dict(w_tilde=use_w, config="prod", positive=True, warm=False, force=False),
+                            monitor="kkt.inversion.prod_defaults")
+            ctx.check(ctx.monitors["path:warm_start_taken"] == warm_before and st_c.positive_only_uses_p_initial is False,
+                      "settings.explicit_value_wins_over_config", config="prod", requested="positive_only_uses_p_initial=False",
+                      warm_starts_observed=ctx.monitors["path:warm_start_taken"] - warm_before)
     finally:
         env.push_config("base")
     k = case["k"]
